@@ -472,7 +472,7 @@ async fn build_account(temp: Arc<tempfile::TempDir>, plain_dir: &Path, index: us
             return Err(Failure::new("c19/source/file-secret-not-external", format!("[source account {index}] a secret created from a path is not stored as an external file")));
         };
         let file_name = ExternalFileName::from(checksum);
-        let got = w.account.download_file(&fid, &res.id, &file_name).await.map_err(|e| Failure::new("c19/source/download-error", format!("[source account {index}] download_file on the file system: {e}")))?;
+        let got = crate::engine_acct::download_file_retry(&w.account, &fid, &res.id, &file_name).await.map_err(|e| Failure::new("c19/source/download-error", format!("[source account {index}] download_file on the file system: {e}")))?;
         if got != plain {
             return Err(Failure::new("c19/source/download-differs", format!("[source account {index}] download_file on the file system returns {} bytes, {} written", got.len(), plain.len())));
         }
@@ -505,7 +505,7 @@ async fn build_account(temp: Arc<tempfile::TempDir>, plain_dir: &Path, index: us
                 return Err(Failure::new("c19/source/file-secret-not-external", format!("[source account {index}] an attachment created from a path is not stored as an external file")));
             };
             let file_name = ExternalFileName::from(checksum);
-            let got = w.account.download_file(&fid, &res.id, &file_name).await.map_err(|e| Failure::new("c19/source/download-error", format!("[source account {index}] download_file of an attachment on the file system: {e}")))?;
+            let got = crate::engine_acct::download_file_retry(&w.account, &fid, &res.id, &file_name).await.map_err(|e| Failure::new("c19/source/download-error", format!("[source account {index}] download_file of an attachment on the file system: {e}")))?;
             if got != plain {
                 return Err(Failure::new("c19/source/download-differs", format!("[source account {index}] download_file of an attachment returns {} bytes, {} written", got.len(), plain.len())));
             }
@@ -785,8 +785,7 @@ async fn run_upgrade(case: &UpgradeCase, info: &mut CaseInfo) -> CheckResult {
             return Err(Failure::new("c19/servers-differ", format!("{who}: server origins after the upgrade {:?}, before {:?}", servers, b.servers)));
         }
         for a in &b.attachments {
-            let got = account
-                .download_file(&a.folder, &a.secret, &a.file_name)
+            let got = crate::engine_acct::download_file_retry(&account, &a.folder, &a.secret, &a.file_name)
                 .await
                 .map_err(|e| Failure::new("c19/attachment-unreadable", format!("{who}: download_file of the attachment after the upgrade: {e}")))?;
             if got != a.plain {
